@@ -70,12 +70,17 @@ def gen_program(rng, big_ok=True):
     entry = None
     nblocks = rng.randrange(1, 5)
     budget_bytes = 220_000
-    for _ in range(nblocks):
+    flags = []
+    for bi in range(nblocks):
         cpu = rng.choice(sorted(TARGETS))
         hdr, gran, dstat, maxv, bits, be, rstat, limit = TARGETS[cpu]
         used.append(cpu)
-        lines.append('\tcpu\t%s' % cpu)
-        lines.append('\tsegment\tcode')
+        if bi == 0 and rng.random() < 0.3:
+            # target given on the command line: the source starts in the CODE segment of that target without any CPU/SEGMENT statement
+            flags = ['-cpu', cpu]
+        else:
+            lines.append('\tcpu\t%s' % cpu)
+            lines.append('\tsegment\tcode')
         seg = 1
         segname = 'code'
         pc = {}          # segname -> current address (units)
@@ -163,7 +168,7 @@ def gen_program(rng, big_ok=True):
         lines.append('\tend')
     src = '\n'.join(lines) + '\n'
     exp = [(r[0], r[1], r[2], r[3], r[4]) for r in runs if r[4]]
-    return src, exp, entry, used
+    return src, exp, entry, used, flags
 
 
 def gran_of(cpu, segname):
@@ -319,11 +324,11 @@ def run_case(case, ctx):
         out.sig = ('corpus', tag)
         return
     rng = ctx.rng
-    src, exp, entry, used = gen_program(rng)
+    src, exp, entry, used, gflags = gen_program(rng)
     ctx.write('g.asm', src)
-    a = asl.assemble(ctx, 'g.asm', [], trace=True, timeout=120)
+    a = asl.assemble(ctx, 'g.asm', gflags, trace=True, timeout=120)
     tag = 'generated #%d' % ctx.idx
-    out.sample = {'generated': ctx.idx, 'targets': used, 'expected_runs': [(h, s, g, st, len(v)) for h, s, g, st, v in exp][:8],
+    out.sample = {'generated': ctx.idx, 'targets': used, 'flags': gflags, 'expected_runs': [(h, s, g, st, len(v)) for h, s, g, st, v in exp][:8],
                   'source_head': src.split('\n')[:12]}
     if a.run.timed_out:
         out.inconc('timeout')
